@@ -76,6 +76,8 @@ Definition r_step (c : rcfg) (s : rcache) (o : op) : rcache * rv :=
   | Len => (s, RNat (length s))
   | Contains k => (s, RBool (match r_lookup s k with Some _ => true | None => false end))
   | Snapshot _ => (s, RExn KeyError)     (* relational: see r_accepts *)
+  | NeDict l => (s, RBool (negb (same_items s l)))
+  | CopyCopy => (s, RItems s)
   end.
 
 Fixpoint strictly_sorted (l : list (K * V)) : bool :=
